@@ -405,7 +405,9 @@
    BG_MAP_FRESH(U_B(g)->edgeLabels) && U_WF_SAFE(g))
 /* pointwise form of `the entry under the cursor is not below its row index` */
 #define UEIT_UP_OK(it)                                                        \
-  ((it).neighbour.r.len == 0 || !((bg_size)(it).vertex == (bg_size)G_Q && (it).neighbour.cur == G_P && G_P < G_Q))
+  ((it).neighbour.r.len == 0 ||                                               \
+   (!((bg_size)(it).vertex == (bg_size)G_Q && (it).neighbour.cur == G_P && G_P < G_Q) && \
+    !((bg_size)(it).vertex == (bg_size)G_P && (it).neighbour.cur == G_Q && G_Q < G_P)))
 #define UEIT_OK(it, g) (EIT_OK(it, U_B(g)) && UEIT_UP_OK(it))
 /* the frontier follows this iterator; rank counts the upper entries before it */
 #define UEIT_TRACKED(it, g)                                                   \
